@@ -181,4 +181,8 @@ type Op struct {
 	Dist int64
 	Len  int
 	B    byte
+	// Near (encoder only, literals): 0 = code B; 1..4 = code the byte at the most recent match
+	// distance itself / with its lowest bit / its highest bit / bit 4 flipped - the cases the
+	// "matched literal" coding treats specially. The byte coded is what ends up in the plaintext.
+	Near int
 }
